@@ -647,7 +647,7 @@ func E6PSGrammar(c *core.Ctx, r *core.Report) {
 
 // E6ScannerSites: all scanner emissions of ToScanxScanner have the same coordinate mapping; image sizes agree.
 func E6ScannerSites(c *core.Ctx, r *core.Report) {
-	r.Rule("E6.scanner-site", "every ras.Start/ras.Line call in Path.ToScanxScanner passes fixedPoint26_6(X*dpmm, dy-Y*dpmm) with X, Y consecutive data values of one record (sibling agreement: a deviating site flips or shifts part of the outline); the rendering is called with the image height in pixels")
+	r.Rule("E6.scanner-site", "every ras.Start/ras.Line call in Path.ToScanxScanner passes fixedPoint26_6(X*dpmm, dy-Y*dpmm) with X, Y consecutive data values of one record or the X and Y of one Point (sibling agreement: a deviating site flips or shifts part of the outline); the rendering is called with the image height in pixels")
 	r.Rule("E6.image-size", "rasterizer.Draw and rasterizer.New compute the image size as int(W*DPMM+0.5) x int(H*DPMM+0.5) (sibling agreement)")
 	p := c.MustPkg("")
 	info := p.TypesInfo
@@ -691,33 +691,42 @@ func E6ScannerSites(c *core.Ctx, r *core.Report) {
 		}
 		n++
 		key := fmt.Sprintf("canvas.Path.ToScanxScanner|%s site #%d", se.Sel.Name, n)
-		// X*dpmm
+		// X*dpmm and dy - Y*dpmm, with (X, Y) either consecutive data values of one record or the
+		// X and Y of one Point
 		okX, okY := false, false
 		var xi, yi *ast.IndexExpr
-		if mul, ok := core.Unparen(inner.Args[0]).(*ast.BinaryExpr); ok && mul.Op == token.MUL {
-			if ie, ok := core.Unparen(mul.X).(*ast.IndexExpr); ok && core.IsPathDataSel(info, ie.X) {
-				if isDpmm(mul.Y) {
-					okX, xi = true, ie
+		var xp, yp *ast.SelectorExpr
+		coord := func(e ast.Expr) (*ast.IndexExpr, *ast.SelectorExpr) {
+			if ie, ok := core.Unparen(e).(*ast.IndexExpr); ok && core.IsPathDataSel(info, ie.X) {
+				return ie, nil
+			}
+			if sel, ok := core.Unparen(e).(*ast.SelectorExpr); ok && (sel.Sel.Name == "X" || sel.Sel.Name == "Y") {
+				if t := info.TypeOf(sel.X); t != nil && isNamed(t, "tdewolff/canvas", "Point") {
+					return nil, sel
 				}
 			}
+			return nil, nil
 		}
-		// dy - Y*dpmm
+		if mul, ok := core.Unparen(inner.Args[0]).(*ast.BinaryExpr); ok && mul.Op == token.MUL && isDpmm(mul.Y) {
+			xi, xp = coord(mul.X)
+			okX = xi != nil || xp != nil
+		}
 		if sub, ok := core.Unparen(inner.Args[1]).(*ast.BinaryExpr); ok && sub.Op == token.SUB {
 			if id, ok := core.Unparen(sub.X).(*ast.Ident); ok && core.ObjOf(info, id) == dyObj {
-				if mul, ok := core.Unparen(sub.Y).(*ast.BinaryExpr); ok && mul.Op == token.MUL {
-					if ie, ok := core.Unparen(mul.X).(*ast.IndexExpr); ok && core.IsPathDataSel(info, ie.X) {
-						if isDpmm(mul.Y) {
-							okY, yi = true, ie
-						}
-					}
+				if mul, ok := core.Unparen(sub.Y).(*ast.BinaryExpr); ok && mul.Op == token.MUL && isDpmm(mul.Y) {
+					yi, yp = coord(mul.X)
+					okY = yi != nil || yp != nil
 				}
 			}
 		}
 		consecutive := false
-		if okX && okY {
+		if xi != nil && yi != nil {
 			if d, ok := indexDistance(info, yi.Index, xi.Index); ok && d == 1 && types.ExprString(xi.X) == types.ExprString(yi.X) {
 				consecutive = true
 			}
+		}
+		if xp != nil && yp != nil && xp.Sel.Name == "X" && yp.Sel.Name == "Y" && types.ExprString(xp.X) == types.ExprString(yp.X) {
+			consecutive = true
 		}
 		if okX && okY && consecutive {
 			r.OK("E6.scanner-site", key, c.Pos(call.Pos()), types.ExprString(inner))
@@ -1182,4 +1191,75 @@ func E6WindingMode(c *core.Ctx, r *core.Report) {
 	fl.Run(fd.Body, S{"unset": true})
 	r.Count("E6.scan-sites", n)
 	r.Floor("E6.scan-sites", 4)
+}
+
+// E6DashPeriod: a dash phase is normalised with the period of the array that is emitted.
+func E6DashPeriod(c *core.Ctx, r *core.Report) {
+	r.Rule("E6.dash-period", "in a back-end function that sums a dash array (a []float64 parameter) to obtain the pattern's period — PDF's SetDashes adds it to a negative phase — the array is not changed afterwards: in particular the doubling of an odd-length array (which doubles the period) happens before the sum. A period taken from the undoubled odd array shifts the phase by half a period and exchanges dashes and gaps")
+	n := 0
+	for _, b := range backends {
+		p := c.MustPkg(b.rel)
+		info := p.TypesInfo
+		for _, fd := range core.AllFuncDecls(p) {
+			if fd.Body == nil {
+				continue
+			}
+			params := map[types.Object]bool{}
+			for _, fl := range fd.Type.Params.List {
+				for _, nm := range fl.Names {
+					if o := info.Defs[nm]; o != nil {
+						if sl, ok := o.Type().Underlying().(*types.Slice); ok {
+							if bt, ok := sl.Elem().Underlying().(*types.Basic); ok && bt.Kind() == types.Float64 {
+								params[o] = true
+							}
+						}
+					}
+				}
+			}
+			if len(params) == 0 {
+				continue
+			}
+			ast.Inspect(fd.Body, func(m ast.Node) bool {
+				rs, ok := m.(*ast.RangeStmt)
+				if !ok {
+					return true
+				}
+				id, ok := core.Unparen(rs.X).(*ast.Ident)
+				if !ok || !params[core.ObjOf(info, id)] {
+					return true
+				}
+				arr := core.ObjOf(info, id)
+				sums := false
+				for _, s := range rs.Body.List {
+					if as, ok := s.(*ast.AssignStmt); ok && as.Tok == token.ADD_ASSIGN {
+						sums = true
+					}
+				}
+				if !sums {
+					return true
+				}
+				n++
+				key := fmt.Sprintf("%s.%s|period of the dash array", p.Types.Name(), core.FuncName(fd))
+				var later ast.Node
+				ast.Inspect(fd.Body, func(k ast.Node) bool {
+					if as, ok := k.(*ast.AssignStmt); ok && as.Pos() > rs.End() {
+						for _, l := range as.Lhs {
+							if lid, ok := l.(*ast.Ident); ok && core.ObjOf(info, lid) == arr && later == nil {
+								later = as
+							}
+						}
+					}
+					return true
+				})
+				if later == nil {
+					r.OK("E6.dash-period", key, c.Pos(rs.Pos()), "the summed array is the emitted array")
+				} else {
+					r.Fail("E6.dash-period", key, c.Pos(later.Pos()), fmt.Sprintf("the dash array is changed (`%s`) after its period was summed: the phase was normalised with the period of a different array than the one emitted (for an odd-length array half the real period, which exchanges dashes and gaps)", c.Src(later)))
+				}
+				return true
+			})
+		}
+	}
+	r.Count("E6.dash-period-sums", n)
+	r.Floor("E6.dash-period-sums", 1)
 }
